@@ -225,6 +225,33 @@ func mutate(r *hlib.Rand, segs []seg, fin func([]byte) []byte, refix bool) []byt
 	}
 }
 
+// mutateFraming is mutate restricted to inputs on which decodeRaftEntries reaches its verdict
+// without depending on whether a *misaligned* body slice happens to be valid protobuf (the
+// model treats bodies as opaque): the valid encoding, truncations, trailing bytes, and one
+// varint replaced by a hostile one (every hostile value is rejected, or panics, at that very
+// field, while all bodies in front of it are intact marshalled entries).  Bit flips and random
+// bytes are left to the single-body decoders (hard state, snapshot), which slice before they
+// unmarshal.
+func mutateFraming(r *hlib.Rand, segs []seg) []byte {
+	E := ser(segs)
+	switch x := r.Intn(100); {
+	case x < 15:
+		return E
+	case x < 45:
+		if len(E) == 0 {
+			return E
+		}
+		if r.Chance(25) {
+			return E[:len(E)-1]
+		}
+		return E[:r.Intn(len(E)+1)]
+	case x < 55:
+		return append(append([]byte(nil), E...), rndBytes(r, 1+r.Intn(3))...)
+	default:
+		return ser(corruptField(r, segs))
+	}
+}
+
 // ---------------------------------------------------------------- per-codec values
 
 type lockVal struct {
@@ -976,7 +1003,7 @@ func genRaftCmd(r *hlib.Rand) string {
 		if r.Chance(10) { // declared count off by one
 			segs[1] = sU(segs[1].v + 1)
 		}
-		return "raft.ents.dec " + hexs(mutate(r, segs, idFin, false))
+		return "raft.ents.dec " + hexs(mutateFraming(r, segs))
 	case x < 73:
 		hs := genHardState(r)
 		return fmt.Sprintf("raft.hs.rt %d %s", g64(r), hexs(must(hs.Marshal())))
